@@ -317,12 +317,14 @@ def dispatchC16 : Dispatch := fun op args =>
     | _, _ => badArgs
   | "c16.b.from_slice", [n, v] =>
     match n.toNat?, hexToNat? v with
-    | some n, some v => both (limbsHexLen (fromWords (toLimbs n v))) s!"{n}:{natToHex (v % B ^ n)}"
+    -- `From<&[Limb]>` goes through `From<Vec<Limb>>` since /repo fix a47b355 (an empty slice is padded to one limb)
+    | some n, some v => both (limbsHexLen (boxedOfVec (fromWords (toLimbs n v)))) s!"{max 1 n}:{natToHex (v % B ^ n)}"
     | _, _ => badArgs
   | "c16.b.words", [n, v] =>
     match n.toNat?, hexToNat? v with
     | some n, some v =>
-      both (wordsTok (toWords (toLimbs n v))) (wordsTok ((List.range n).map fun i => v / B ^ i % B))
+      -- `BoxedUint::from_words` pads an empty sequence to one limb since /repo fix a47b355
+      both (wordsTok (toWords (boxedOfVec (fromWords (toLimbs n v))))) (wordsTok ((List.range (max 1 n)).map fun i => v / B ^ i % B))
     | _, _ => badArgs
   | _, _ => none
 
